@@ -725,6 +725,12 @@ class Backend(ABC):
                     rule.source,
                     f"Correlation method '{method}' is not supported by backend '{self.name}'.",
                 )
+            # Initialize processing pipeline if not already done
+            if (
+                not hasattr(self, "last_processing_pipeline")
+                or self.last_processing_pipeline is None
+            ):
+                self.init_processing_pipeline(output_format)
             self.last_processing_pipeline.apply(rule)
 
             # Determine which conversion method to use based on type and condition type
